@@ -176,6 +176,7 @@ type ctx struct {
 	inMerge      bool
 	noAllocFacts bool
 	lastInst     *ssa.Function
+	frames       []*frame
 	lastAllocType map[string]types.Type
 	memo         map[string][]memoEntry
 	readLog      []map[string]string
@@ -939,6 +940,15 @@ func (x *ctx) oblige(st *state, kind, tag, site, goal, note string) {
 
 // ---------------------------------------------------------------- execution
 
+func closureOf(f, root *ssa.Function) bool {
+	for p := f.Parent(); p != nil; p = p.Parent() {
+		if p == root {
+			return true
+		}
+	}
+	return false
+}
+
 func isLoopHeader(b *ssa.BasicBlock) bool {
 	for _, p := range b.Preds {
 		if b.Dominates(p) {
@@ -1174,7 +1184,11 @@ func (x *ctx) run(st *state, fr *frame, b *ssa.BasicBlock, idx int, prev *ssa.Ba
 			x.mapUpdate(st, fr, in)
 		case *ssa.MakeChan:
 			r := x.freshTerm("chan", sRef)
-			st.assume(not(eq(r, null)))
+			st.define(not(eq(r, null)))
+			x.assumeFreshRef(st, r)
+			// ghost: nothing sent yet, capacity as given
+			x.ghostWrite(st, "ghost_chanSent", []term{r}, mkbv(0, 64))
+			x.ghostWrite(st, "ghost_chanCap", []term{r}, x.asTerm(x.get(fr, st, in.Size), in.Size.Type()))
 			fr.regs[in] = scalar(r)
 		case *ssa.Send:
 			x.chanSend(st, fr, in)
@@ -1218,7 +1232,7 @@ func (x *ctx) run(st *state, fr *frame, b *ssa.BasicBlock, idx int, prev *ssa.Ba
 			}
 			return res
 		case *ssa.Call:
-			if fr.top && fr.con != nil && len(fr.con.Sites) > 0 && x.spec == 0 {
+			if x.spec == 0 && x.con != nil && len(x.con.Sites) > 0 && (fr.top || (fr.fn.Parent() != nil && closureOf(fr.fn, x.fn))) {
 				x.siteAssertions(st, fr, b, in)
 			}
 			outs, inline := x.call(st, fr, in.Common(), in, in.Type())
